@@ -165,13 +165,18 @@ def main(argv):
         print('KNOWN-FINDING: property=%s %s' % (pid, kf['what']))
     nviol = 0
     vio_ev = []
+    # one VIOLATION line (and one replay file) per job that has refuted obligations; every refuted obligation is listed
+    byjob = {}
     for jn, o, r in violations:
+        byjob.setdefault(jn, (r, []))[1].append(o)
+    for jn, (r, obs) in byjob.items():
         from . import replay
-        rp = replay.make_replay(pid, jn, o, r, work)
+        for o in obs:
+            print('FAILED-OBLIGATION job=%s obligation=%s "%s" at %s:%s' % (jn, o['name'], o['description'][:200], o['file'], o['line']))
+        rp = replay.make_replay(pid, jn, obs, r, work)
         tail = '' if rp['replayed'] else ' no-failing-input-found'
-        print('FAILED-OBLIGATION job=%s obligation=%s "%s" at %s:%s' % (jn, o['name'], o['description'][:160], o['file'], o['line']))
         print('VIOLATION property=%s replay=%s%s' % (pid, rp['path'], tail))
-        vio_ev.append(dict(job=jn, obligation=o['name'], description=o['description'], replay=rp['path'], replayed=rp['replayed']))
+        vio_ev.append(dict(job=jn, obligations=[o['name'] for o in obs], descriptions=[o['description'][:300] for o in obs], replay=rp['path'], replayed=rp['replayed']))
         nviol += 1
     for jn, why in undecided:
         print('UNDECIDED job=%s reason=%s' % (jn, why.replace('\n', ' ')[:600]))
